@@ -129,7 +129,7 @@ def strategy(spec, ctx):
 
 def shards(tier):
     n = 16 if tier == 'quick' else 64
-    return [{'examples': 300 if tier == 'quick' else 2500} for _ in range(n)]
+    return [{'examples': 800 if tier == 'quick' else 6000} for _ in range(n)]
 
 
 def run_shard(spec, ctx):
